@@ -37,6 +37,9 @@ type CnrState struct {
 	Objs    map[string]*Rec // indexed objects by universe name
 	Marks   map[string]Mark // definite garbage marks
 	Unsure  map[string]bool // a mark was requested while the object was not stored: marked or not
+	// ByTomb: the default mark of this part was placed by a tombstone put on its parent (it is the
+	// mechanism of that removal, not a removal reason of its own) and not confirmed by an explicit mark.
+	ByTomb map[string]bool
 }
 
 // Model is the reference state.
@@ -54,7 +57,7 @@ func NewModel() *Model {
 }
 
 func newCnr() CnrState {
-	return CnrState{Objs: map[string]*Rec{}, Marks: map[string]Mark{}, Unsure: map[string]bool{}}
+	return CnrState{Objs: map[string]*Rec{}, Marks: map[string]Mark{}, Unsure: map[string]bool{}, ByTomb: map[string]bool{}}
 }
 
 // Key is the canonical rendering of the model state.
@@ -73,6 +76,9 @@ func (m *Model) Key() string {
 		}
 		for n := range cs.Unsure {
 			ks = append(ks, "u"+n)
+		}
+		for n := range cs.ByTomb {
+			ks = append(ks, "t"+n)
 		}
 		sort.Strings(ks)
 		sb.WriteString(strings.Join(ks, ","))
@@ -117,6 +123,12 @@ func (cs *CnrState) Children(p string) []string {
 					add(s.Name)
 				}
 			}
+		} else if sid := ByName[d].Split; sid != "" { // v1 chain: bound by the split ID
+			for _, s := range Specs {
+				if cs.Objs[s.Name] != nil && s.Split == sid {
+					add(s.Name)
+				}
+			}
 		}
 	}
 	for _, n := range append([]string(nil), res...) {
@@ -125,6 +137,26 @@ func (cs *CnrState) Children(p string) []string {
 		}
 	}
 	return res
+}
+
+// linkedParent is the parent of a stored part x that carries no parent header itself but names its
+// chain in its own header (first-part ID of a v2 chain, split ID of a v1 chain), as revealed by any
+// stored sibling naming the same chain and carrying the parent header -- whatever the order of
+// their IDs.
+func (cs *CnrState) linkedParent(x string) string {
+	sx := ByName[x]
+	if cs.Objs[x] == nil || sx.Parent != "" || (sx.First == "" && sx.Split == "") {
+		return ""
+	}
+	for _, s := range Specs {
+		if cs.Objs[s.Name] == nil || s.Parent == "" || s.Cnr != sx.Cnr {
+			continue
+		}
+		if (sx.First != "" && s.First == sx.First) || (sx.Split != "" && s.Split == sx.Split) {
+			return s.Parent
+		}
+	}
+	return ""
 }
 
 // chainParent is the parent of a header-less first part x, if stored chain members reveal it.
@@ -148,6 +180,7 @@ func (cs *CnrState) setMark(x string, mk Mark) {
 	case mk == MarkDefault:
 		cs.Marks[x] = MarkDefault
 		delete(cs.Unsure, x)
+		delete(cs.ByTomb, x) // now a removal reason of its own
 	case !has || cur == MarkNone:
 		if !cs.Unsure[x] {
 			cs.Marks[x] = MarkRedundant
@@ -170,6 +203,7 @@ func (cs *CnrState) remove(x string) {
 	delete(cs.Objs, x)
 	delete(cs.Marks, x)
 	delete(cs.Unsure, x)
+	delete(cs.ByTomb, x)
 	if p := ByName[x].Parent; p != "" && cs.Objs[p] != nil && !cs.Objs[p].Phys {
 		for _, s := range Specs {
 			if cs.Objs[s.Name] != nil && s.Parent == p {
@@ -206,8 +240,14 @@ func (m *Model) Apply(o Op, accepted bool) {
 		}
 		if s.Kind == KTomb { // a tombstone marks its target and every known part of it for removal
 			for _, ch := range cs.Children(s.Target) {
+				if cs.Marks[ch] != MarkDefault || cs.Unsure[ch] {
+					cs.ByTomb[ch] = true
+				}
 				cs.Marks[ch] = MarkDefault
 				delete(cs.Unsure, ch)
+			}
+			if cs.Marks[s.Target] != MarkDefault || cs.Unsure[s.Target] {
+				cs.ByTomb[s.Target] = true
 			}
 			cs.Marks[s.Target] = MarkDefault
 			delete(cs.Unsure, s.Target)
@@ -239,6 +279,7 @@ func (m *Model) Apply(o Op, accepted bool) {
 		}
 		delete(cs.Marks, s.Name)
 		delete(cs.Unsure, s.Name)
+		delete(cs.ByTomb, s.Name)
 	}
 }
 
@@ -320,7 +361,9 @@ func (v *view) own(x string) St {
 	if v.tombstoned(x) {
 		reasons |= Removed
 	}
-	if v.markedDefault(x) {
+	if v.markedDefault(x) && !(v.cs.ByTomb[x] && !v.cs.Unsure[x] && v.tombstoned(x)) {
+		// (the mark a tombstone put placed on its own target is no second reason while the
+		// tombstone is there)
 		reasons |= NotFound
 	}
 	if reasons == 0 {
@@ -358,17 +401,42 @@ func combine(own, par St) St {
 	return r
 }
 
+// inherit combines the own status of x with its parent's. A default mark that a tombstone put on
+// the parent placed on x is the mechanism of that removal, not a reason of its own: whatever worse
+// status the parent has wins over it (the mark alone remains once the parent is fine again).
+func (v *view) inherit(x string, own, par St) St {
+	if own == NotFound && v.cs.ByTomb[x] && !v.cs.Unsure[x] {
+		var r St
+		for _, b := range []St{Avail, NotFound, Removed, Expired} {
+			if par&b == 0 {
+				continue
+			}
+			if b == Avail {
+				r |= NotFound
+			} else {
+				r |= b
+			}
+		}
+		return r
+	}
+	return combine(own, par)
+}
+
 func (v *view) full(x string, depth int) St {
 	o := v.own(x)
 	if depth >= 2 {
 		return o
 	}
 	if p := v.cs.headerParent(x); p != "" {
-		return combine(o, v.full(p, depth+1))
+		return v.inherit(x, o, v.full(p, depth+1))
+	}
+	if p := v.cs.linkedParent(x); p != "" {
+		// x names its chain in its own header: it is a child of the parent the chain reveals
+		return v.inherit(x, o, v.full(p, depth+1))
 	}
 	if p := v.cs.chainParent(x); p != "" {
-		// x carries no parent header (first part of a chain): the text speaks of children put with
-		// a parent header, so inheriting here is allowed but not demanded.
+		// x carries neither a parent header nor a chain reference (first part of a v2 chain): the
+		// text speaks of children put with split headers, so inheriting here is allowed, not demanded.
 		return o | combine(o, v.full(p, depth+1))
 	}
 	return o
@@ -493,6 +561,9 @@ func (m *Model) Tombstoned(x string) bool {
 func (m *Model) ParentOf(x string) (string, bool) {
 	cs := &m.C[ByName[x].Cnr]
 	if p := cs.headerParent(x); p != "" {
+		return p, true
+	}
+	if p := cs.linkedParent(x); p != "" {
 		return p, true
 	}
 	return cs.chainParent(x), false
